@@ -351,10 +351,12 @@ pub fn replay_engine_follow(cases: &[J]) -> J {
     for case in cases {
         tick(case);
         let lines: Vec<&J> = case["files"].as_array().unwrap().iter().flat_map(|f| f.as_array().unwrap().iter()).collect();
-        let mut content = Vec::new();
+        // the followed file starts with a line that is no row and not valid UTF-8 (invisible to every statement: C06), and the reader polls
+        // the end of the file twice before the observation ends: whatever bookkeeping the reader does, nothing is delivered again
+        let mut content: Vec<u8> = b"###\xff\xe9###\n".to_vec();
         for l in &lines { content.extend(crate::sql::line_text(l).into_bytes()); content.push(b'\n'); }
         let query = crate::sql::statement(&case["q"], "");
-        let child_case = json!({"content": jbytes(&content), "pre": content.len(), "head": true, "cap": 8192, "hist": [{"e": "S", "n": 0}],
+        let child_case = json!({"content": jbytes(&content), "pre": content.len(), "head": true, "cap": 8192, "hist": [{"e": "R", "n": 0}, {"e": "R", "n": 0}, {"e": "S", "n": 0}],
                                 "delivered": [], "failed": false, "tdef": case["tdef"], "query": query});
         let out = std::process::Command::new(&exe).env("TZ", "UTC").arg("follow-child").arg(child_case.to_string()).output().unwrap();
         let stdout = String::from_utf8_lossy(&out.stdout).to_string();
